@@ -1,14 +1,14 @@
-\* one reader (readers do not influence each other), two calls, Reset
+\* four keys, bounded and unbounded cursor ranges
 SPECIFICATION MCSpec
 CONSTANTS
-  NK = 3
+  NK = 4
   MaxW = 3
   Readers = {1}
   MaxCalls = 2
-  Ranges <- Ranges1
+  Ranges <- Ranges2
   VLens = {1}
-  WithReset = TRUE
-  CallOps = {"find", "iter"}
+  WithReset = FALSE
+  CallOps = {"iter"}
 VIEW MCView
 INVARIANTS TypeOK Accounting Sorted ImplAgrees ImplExplained CursorAgrees ForwardUp OnlyStored
 CHECK_DEADLOCK FALSE
